@@ -1261,6 +1261,433 @@ Proof.
   exact (reawait_run g (m_coro s) ops s1 R (step_held_nil (m_coro s) _ _ _ _ E HN I) D).
 Qed.
 
+(* ================= run level: listener ids are unique across chain, ready queue and kept suspend points ================= *)
+Definition cnt (x : nat) (l : list nat) : nat := count_occ Nat.eq_dec l x.
+Arguments cnt : simpl never.
+Lemma cnt_app x a b : cnt x (a ++ b) = (cnt x a + cnt x b)%nat. Proof. apply count_occ_app. Qed.
+Lemma cnt_cons x a l : cnt x (a :: l) = (cnt x [a] + cnt x l)%nat. Proof. apply (count_occ_app Nat.eq_dec [a] l). Qed.
+Lemma cnt_nil x : cnt x [] = 0%nat. Proof. reflexivity. Qed.
+Lemma cnt_cons_map x a (c : list (nat * bool)) : cnt x (a :: map fst c) = (cnt x [a] + cnt x (map fst c))%nat. Proof. apply cnt_cons. Qed.
+Lemma cnt_self x : cnt x [x] = 1%nat. Proof. unfold cnt. cbn. destruct (Nat.eq_dec x x); [reflexivity|contradiction]. Qed.
+Lemma cnt_other x y : x <> y -> cnt x [y] = 0%nat. Proof. intros N. unfold cnt. cbn. destruct (Nat.eq_dec y x); [congruence|reflexivity]. Qed.
+Lemma cnt_in x l : In x l <-> (0 < cnt x l)%nat. Proof. apply count_occ_In. Qed.
+Lemma nodup_cnt l : NoDup l <-> forall x, (cnt x l <= 1)%nat. Proof. apply NoDup_count_occ. Qed.
+
+Definition cids (c : list (nat * bool)) : list nat := map fst c.
+Definition cq (s : st) : list nat := cids (chain s) ++ cids (queue s).
+Definition ids (s : st) : list nat := cq s ++ concat (held s).
+
+Lemma cids_app a b : cids (a ++ b) = cids a ++ cids b. Proof. apply map_app. Qed.
+
+Lemma co_await_e_place r i s s' e : co_await_e r i s = (s', e) ->
+  queue s' = queue s /\ held s' = held s /\ (chain s' = (i, false) :: chain s \/ chain s' = chain s).
+Proof.
+  intros E. destruct (co_await_e_frame _ _ _ _ _ E) as (SV & Q & _ & _ & _ & C1 & C2).
+  split; [exact Q|]. split; [exact (sv_held _ _ SV)|]. destruct (alive s); [left; exact (C1 eq_refl)|right; exact (C2 eq_refl)].
+Qed.
+
+Lemma co_resumed_place i s s' e p : co_resumed i s = (s', e, p) ->
+  queue s' = queue s /\ held s' = held s /\ ((chain s' = (i, false) :: chain s /\ p = false) \/ chain s' = chain s).
+Proof.
+  intros E. unfold co_resumed in E. destruct (await_resume s).
+  - destruct (negb (Nat.eqb (l_limit (getl s i)) 0) && Nat.eqb (S (l_cnt (getl s i))) (l_limit (getl s i))).
+    + inversion E; subst. repeat split. right. reflexivity.
+    + destruct (l_pause (getl s i)).
+      * inversion E; subst. repeat split. right. reflexivity.
+      * destruct (co_await_e _ i _) as [s2 e2] eqn:E2. inversion E; subst.
+        destruct (co_await_e_place _ _ _ _ _ E2) as (Q & H & C). split; [exact Q|]. split; [exact H|].
+        destruct C as [C|C]; [left; split; [exact C|reflexivity]|right; exact C].
+  - destruct (l_retry (getl s i)) as [|r'].
+    + inversion E; subst. repeat split. right. reflexivity.
+    + destruct (co_await_e r' i _) as [s2 e2] eqn:E2. inversion E; subst.
+      destruct (co_await_e_place _ _ _ _ _ E2) as (Q & H & C). split; [exact Q|]. split; [exact H|].
+      destruct C as [C|C]; [left; split; [exact C|reflexivity]|right; exact C].
+Qed.
+
+Ltac cnt_norm := unfold ids, cq, cids in *; cbn [map fst app concat chain queue held set_queue set_chain set_held] in *;
+  repeat (rewrite ?map_app, ?cnt_app, ?concat_app in * ); cbn [map fst concat] in *;
+  repeat (rewrite ?cnt_app, ?cnt_nil, ?(cnt_cons _ _ (_ :: _)), ?(cnt_cons _ _ (map _ _)), ?(cnt_cons _ _ (_ ++ _)) in * ).
+
+(* conservation: what is handed to a function ends up in the chain, in the queue, or is dropped (finished / freed) *)
+Lemma run_item_place inl it s s' e : run_item inl it s = (s', e) ->
+  held s' = held s /\ exists d, forall x, (cnt x [fst it] + cnt x (cq s) = cnt x d + cnt x (cq s'))%nat.
+Proof.
+  intros E. destruct it as [i ready]. cbn [fst]. unfold run_item in E. destruct ready.
+  - destruct (co_resumed i s) as [[s1 e1] p] eqn:E1. destruct (co_resumed_place _ _ _ _ _ E1) as (Q & H & C).
+    destruct p; [destruct inl|].
+    + destruct (co_await_e _ i s1) as [s2 e2] eqn:E2. inversion E; subst.
+      destruct (co_await_e_place _ _ _ _ _ E2) as (Q2 & H2 & C2). split; [congruence|].
+      destruct C as [(C & P)|C]; [discriminate|].
+      destruct C2 as [C2|C2].
+      * exists []. intros x. unfold cq, cids. rewrite Q2, Q, C2, C. cbn [map fst]. rewrite !cnt_app, cnt_cons_map, cnt_nil. lia.
+      * exists [i]. intros x. unfold cq, cids. rewrite Q2, Q, C2, C. lia.
+    + inversion E; subst. split; [exact H|]. destruct C as [(C & P)|C]; [discriminate|].
+      exists []. intros x. unfold cq, cids. cbn [chain queue set_queue]. rewrite Q, C, map_app. cbn [map fst]. rewrite !cnt_app, cnt_nil. lia.
+    + inversion E; subst. split; [exact H|]. destruct C as [(C & _)|C].
+      * exists []. intros x. unfold cq, cids. rewrite Q, C. cbn [map fst]. rewrite !cnt_app, cnt_cons_map, cnt_nil. lia.
+      * exists [i]. intros x. unfold cq, cids. rewrite Q, C. lia.
+  - destruct (co_await_e_place _ _ _ _ _ E) as (Q & H & C). split; [exact H|]. destruct C as [C|C].
+    + exists []. intros x. unfold cq, cids. rewrite Q, C. cbn [map fst]. rewrite !cnt_app, cnt_cons_map, cnt_nil. lia.
+    + exists [i]. intros x. unfold cq, cids. rewrite Q, C. lia.
+Qed.
+
+Lemma drive_place inl items : forall s s' e, drive inl items s = (s', e) ->
+  held s' = held s /\ exists d, forall x, (cnt x (cids items) + cnt x (cq s) = cnt x d + cnt x (cq s'))%nat.
+Proof.
+  induction items as [|it t IH]; intros s s' e E; cbn [drive] in E.
+  - inversion E; subst. split; [reflexivity|]. exists []. intros x. reflexivity.
+  - destruct (run_item inl it s) as [s1 e1] eqn:E1. destruct (drive inl t s1) as [s2 e2] eqn:E2. inversion E; subst.
+    destruct (run_item_place _ _ _ _ _ E1) as (H1 & d1 & P1). destruct (IH _ _ _ E2) as (H2 & d2 & P2).
+    split; [congruence|]. exists (d1 ++ d2). intros x. specialize (P1 x). specialize (P2 x).
+    unfold cids in *. cbn [map]. rewrite cnt_cons_map, cnt_app. lia.
+Qed.
+
+Lemma cb_resume_place i s s' e : cb_resume i s = (s', e) ->
+  queue s' = queue s /\ held s' = held s /\ (chain s' = (i, true) :: chain s \/ chain s' = chain s).
+Proof.
+  intros E. unfold cb_resume in E. destruct (negb (alive s)); [inversion E; subst; repeat split; right; reflexivity|].
+  destruct (await_resume s); [|inversion E; subst; repeat split; right; reflexivity].
+  destruct (Nat.eqb (l_limit (getl s i)) 0 || Nat.ltb (S (l_cnt (getl s i))) (l_limit (getl s i))); inversion E; subst; repeat split.
+  - left. reflexivity.
+  - right. reflexivity.
+Qed.
+
+Lemma walk_place w : forall s s' e sp, walk w s = (s', e, sp) ->
+  queue s' = queue s /\ held s' = held s /\
+  exists d, forall x, (cnt x (cids w) + cnt x (cids (chain s)) = cnt x d + cnt x sp + cnt x (cids (chain s')))%nat.
+Proof.
+  induction w as [|[i cb] t IH]; intros s s' e sp E; cbn [walk] in E.
+  - inversion E; subst. repeat split. exists []. intros x. reflexivity.
+  - destruct cb.
+    + destruct (cb_resume i s) as [s1 e1] eqn:E1. destruct (walk t s1) as [[s2 e2] sp2] eqn:E2. inversion E; subst.
+      destruct (cb_resume_place _ _ _ _ E1) as (Q1 & H1 & C1). destruct (IH _ _ _ _ E2) as (Q2 & H2 & d & P).
+      split; [congruence|]. split; [congruence|]. destruct C1 as [C1|C1]; rewrite C1 in P.
+      * exists d. intros x. specialize (P x). unfold cids in *. cbn [map fst] in *. rewrite !cnt_cons_map in *. lia.
+      * exists (i :: d). intros x. specialize (P x). unfold cids in *. cbn [map fst] in *. rewrite (cnt_cons x i d), !cnt_cons_map. lia.
+    + destruct (walk t s) as [[s2 e2] sp2] eqn:E2. inversion E; subst.
+      destruct (IH _ _ _ _ E2) as (Q2 & H2 & d & P). split; [exact Q2|]. split; [exact H2|].
+      exists d. intros x. specialize (P x). unfold cids in *. cbn [map fst] in *. rewrite (cnt_cons x i sp2), !cnt_cons_map. lia.
+Qed.
+
+Lemma cids_ready_items sp : cids (ready_items sp) = sp.
+Proof. unfold cids, ready_items. rewrite map_map. cbn. apply map_id. Qed.
+
+Lemma dispose_place awaited sp s s' e : dispose awaited sp s = (s', e) ->
+  held s' = held s /\ exists d, forall x, (cnt x sp + cnt x (cq s) = cnt x d + cnt x (cq s'))%nat.
+Proof.
+  intros E. unfold dispose in E. destruct (negb (m_coro s)).
+  - destruct (drive_place _ _ _ _ _ E) as (H & d & P). split; [exact H|]. exists d. intros x. rewrite <- (P x), cids_ready_items. reflexivity.
+  - destruct (negb awaited).
+    + inversion E; subst. split; [reflexivity|]. exists []. intros x. unfold cq. cbn [chain queue set_queue].
+      rewrite cids_app, cids_ready_items, !cnt_app, cnt_nil. lia.
+    + destruct sp as [|a t] eqn:SP.
+      * inversion E; subst. split; [reflexivity|]. exists []. intros x. reflexivity.
+      * rewrite <- SP in *. assert (NE : sp <> []) by (rewrite SP; discriminate).
+        destruct (drive_place _ _ _ _ _ E) as (H & d & P). split; [exact H|]. exists d. intros x. rewrite <- (P x).
+        unfold cq. cbn [chain queue set_queue].
+        change (cids ((last sp 0%nat, true) :: queue s ++ ready_items (removelast sp)))
+          with (last sp 0%nat :: cids (queue s ++ ready_items (removelast sp))).
+        rewrite cids_app, cids_ready_items.
+        rewrite (cnt_cons x (last sp 0%nat) (cids (queue s) ++ removelast sp)), !cnt_app. change (cids []) with (@nil nat). rewrite cnt_nil.
+        rewrite (app_removelast_last 0%nat NE) at 1. rewrite cnt_app. lia.
+Qed.
+
+(* every listener placed somewhere is known to the table; the table only grows *)
+Definition known (s : st) (i : nat) : Prop := get (tab s) i <> None.
+Definition tab_mono (s s' : st) : Prop := forall i, known s i -> known s' i.
+Lemma tab_mono_refl s : tab_mono s s. Proof. intros i H. exact H. Qed.
+Lemma tab_mono_trans a b c : tab_mono a b -> tab_mono b c -> tab_mono a c.
+Proof. intros H1 H2 i K. apply H2, H1, K. Qed.
+Lemma tab_mono_tab s s' : tab s' = tab s -> tab_mono s s'. Proof. intros T i K. unfold known in *. rewrite T. exact K. Qed.
+Lemma tab_mono_setl s i l : tab_mono s (setl s i l).
+Proof.
+  intros j K. unfold known, setl, set_tab in *. cbn [tab]. destruct (Nat.eq_dec i j) as [->|N].
+  - rewrite get_put_same. discriminate.
+  - rewrite get_put_other by exact N. exact K.
+Qed.
+Lemma known_setl s i l : known (setl s i l) i.
+Proof. unfold known, setl, set_tab. cbn [tab]. rewrite get_put_same. discriminate. Qed.
+
+Lemma co_await_e_mono r : forall i s s' e, co_await_e r i s = (s', e) -> tab_mono s s'.
+Proof.
+  induction r as [|r IH]; intros i s s' e E; cbn [co_await_e] in E; destruct (alive s).
+  - inversion E; subst. apply tab_mono_tab. reflexivity.
+  - inversion E; subst. apply tab_mono_refl.
+  - inversion E; subst. apply tab_mono_tab. reflexivity.
+  - destruct (co_await_e r i _) as [s2 e2] eqn:E2. inversion E; subst.
+    exact (tab_mono_trans _ _ _ (tab_mono_setl _ _ _) (IH _ _ _ _ E2)).
+Qed.
+Lemma co_resumed_mono i s s' e p : co_resumed i s = (s', e, p) -> tab_mono s s'.
+Proof.
+  intros E. unfold co_resumed in E. destruct (await_resume s).
+  - destruct (negb (Nat.eqb (l_limit (getl s i)) 0) && Nat.eqb (S (l_cnt (getl s i))) (l_limit (getl s i))).
+    + inversion E; subst. apply tab_mono_setl.
+    + destruct (l_pause (getl s i)).
+      * inversion E; subst. apply tab_mono_setl.
+      * destruct (co_await_e _ i _) as [s2 e2] eqn:E2. inversion E; subst.
+        exact (tab_mono_trans _ _ _ (tab_mono_setl _ _ _) (co_await_e_mono _ _ _ _ _ E2)).
+  - destruct (l_retry (getl s i)) as [|r'].
+    + inversion E; subst. apply tab_mono_refl.
+    + destruct (co_await_e r' i _) as [s2 e2] eqn:E2. inversion E; subst.
+      exact (tab_mono_trans _ _ _ (tab_mono_setl _ _ _) (co_await_e_mono _ _ _ _ _ E2)).
+Qed.
+Lemma run_item_mono inl it s s' e : run_item inl it s = (s', e) -> tab_mono s s'.
+Proof.
+  intros E. destruct it as [i ready]. unfold run_item in E. destruct ready.
+  - destruct (co_resumed i s) as [[s1 e1] p] eqn:E1. pose proof (co_resumed_mono _ _ _ _ _ E1) as M1.
+    destruct p; [destruct inl|].
+    + destruct (co_await_e _ i s1) as [s2 e2] eqn:E2. inversion E; subst. exact (tab_mono_trans _ _ _ M1 (co_await_e_mono _ _ _ _ _ E2)).
+    + inversion E; subst. exact (tab_mono_trans _ _ _ M1 (tab_mono_tab _ _ eq_refl)).
+    + inversion E; subst. exact M1.
+  - exact (co_await_e_mono _ _ _ _ _ E).
+Qed.
+Lemma drive_mono inl items : forall s s' e, drive inl items s = (s', e) -> tab_mono s s'.
+Proof.
+  induction items as [|it t IH]; intros s s' e E; cbn [drive] in E.
+  - inversion E; subst. apply tab_mono_refl.
+  - destruct (run_item inl it s) as [s1 e1] eqn:E1. destruct (drive inl t s1) as [s2 e2] eqn:E2. inversion E; subst.
+    exact (tab_mono_trans _ _ _ (run_item_mono _ _ _ _ _ E1) (IH _ _ _ E2)).
+Qed.
+Lemma cb_resume_mono i s s' e : cb_resume i s = (s', e) -> tab_mono s s'.
+Proof.
+  intros E. unfold cb_resume in E. destruct (negb (alive s)); [inversion E; subst; apply tab_mono_refl|].
+  destruct (await_resume s); [|inversion E; subst; apply tab_mono_refl].
+  destruct (Nat.eqb (l_limit (getl s i)) 0 || Nat.ltb (S (l_cnt (getl s i))) (l_limit (getl s i))); inversion E; subst.
+  - exact (tab_mono_trans _ _ _ (tab_mono_setl _ _ _) (tab_mono_tab _ _ eq_refl)).
+  - apply tab_mono_setl.
+Qed.
+Lemma walk_mono w : forall s s' e sp, walk w s = (s', e, sp) -> tab_mono s s'.
+Proof.
+  induction w as [|[i cb] t IH]; intros s s' e sp E; cbn [walk] in E.
+  - inversion E; subst. apply tab_mono_refl.
+  - destruct cb.
+    + destruct (cb_resume i s) as [s1 e1] eqn:E1. destruct (walk t s1) as [[s2 e2] sp2] eqn:E2. inversion E; subst.
+      exact (tab_mono_trans _ _ _ (cb_resume_mono _ _ _ _ E1) (IH _ _ _ _ E2)).
+    + destruct (walk t s) as [[s2 e2] sp2] eqn:E2. inversion E; subst. exact (IH _ _ _ _ E2).
+Qed.
+Lemma dispose_mono awaited sp s s' e : dispose awaited sp s = (s', e) -> tab_mono s s'.
+Proof.
+  intros E. unfold dispose in E. destruct (negb (m_coro s)); [exact (drive_mono _ _ _ _ _ E)|].
+  destruct (negb awaited); [inversion E; subst; apply tab_mono_tab; reflexivity|].
+  destruct sp; [inversion E; subst; apply tab_mono_refl|].
+  exact (tab_mono_trans _ _ _ (tab_mono_tab _ (set_queue s []) eq_refl) (drive_mono _ _ _ _ _ E)).
+Qed.
+
+(* the ids an op brings in *)
+Definition new_ids (s : st) (x : op) : list nat :=
+  match x with
+  | OSpawn i _ _ _ | OConnect i _ => match get (tab s) i with None => [i] | Some _ => [] end
+  | _ => []
+  end.
+
+Definition val_upd (s : st) (kind : nat) (v : Z) : st :=
+  if Nat.eqb kind 2 then set_val s VExt (owned s) v else set_val s VOwned (Some v) (ext s).
+
+Lemma notify_place s s' e sp : notify s = (s', e, sp) ->
+  queue s' = queue s /\ held s' = held s /\ tab_mono s s' /\
+  exists d, forall x, (cnt x (cids (chain s)) = cnt x d + cnt x sp + cnt x (cids (chain s')))%nat.
+Proof.
+  unfold notify. intros E. destruct (walk_place _ _ _ _ _ E) as (Q & H & d & P).
+  split; [exact Q|]. split; [exact H|]. split; [exact (tab_mono_trans _ _ _ (tab_mono_tab _ (set_chain s []) eq_refl) (walk_mono _ _ _ _ _ E))|].
+  exists d. intros x. rewrite <- (P x). cbn [chain set_chain]. change (cids []) with (@nil nat). rewrite cnt_nil. lia.
+Qed.
+
+Lemma step0_place s x s' o : step0 s x = (s', o) ->
+  tab_mono s s' /\ (forall i, In i (new_ids s x) -> known s' i) /\
+  exists d, forall y, (cnt y (new_ids s x) + cnt y (ids s) = cnt y d + cnt y (ids s'))%nat.
+Proof.
+  intros E. destruct x; cbn [step0] in E; cbn [new_ids].
+  - (* spawn *) destruct (get (tab s) i) eqn:G.
+    + inversion E; subst. split; [apply tab_mono_refl|]. split; [intros ? []|]. exists []. intros y. reflexivity.
+    + set (s1 := setl s i _) in E. destruct (co_await_e retry i s1) as [s2 e] eqn:E2. inversion E; subst.
+      pose proof (co_await_e_mono _ _ _ _ _ E2) as M2. destruct (co_await_e_place _ _ _ _ _ E2) as (Q & H & C).
+      split; [exact (tab_mono_trans _ _ _ (tab_mono_setl _ _ _) M2)|].
+      split; [intros j [<-|[]]; apply M2, known_setl|].
+      destruct C as [C|C].
+      * exists []. intros y. unfold ids, cq, cids. rewrite Q, H, C. cbn [map fst chain queue held s1 setl set_tab]. rewrite !cnt_app, cnt_cons_map, !cnt_nil. lia.
+      * exists [i]. intros y. unfold ids, cq, cids. rewrite Q, H, C. cbn [map fst chain queue held s1 setl set_tab]. rewrite !cnt_app. lia.
+  - (* connect *) destruct (get (tab s) i) eqn:G.
+    + inversion E; subst. split; [apply tab_mono_refl|]. split; [intros ? []|]. exists []. intros y. reflexivity.
+    + destruct (alive s) eqn:A.
+      * inversion E; subst. split; [exact (tab_mono_trans _ _ _ (tab_mono_setl _ _ _) (tab_mono_tab _ _ eq_refl))|].
+        split; [intros j [<-|[]]; apply known_setl|].
+        exists []. intros y. unfold ids, cq, cids. cbn [map fst chain queue held subscribe set_chain setl set_tab]. rewrite !cnt_app, cnt_cons_map, !cnt_nil. lia.
+      * rewrite cb_resume_dead in E by exact A. inversion E; subst. split; [apply tab_mono_setl|].
+        split; [intros j [<-|[]]; apply known_setl|].
+        exists [i]. intros y. unfold ids, cq, cids. cbn [map fst chain queue held setl set_tab]. rewrite !cnt_app. lia.
+  - (* emit *)
+    destruct (negb (alive s) || (awaited && negb (m_coro s)) || (m_void s && negb (Nat.eqb kind 0)) || Nat.ltb 2 kind).
+    + inversion E; subst. split; [apply tab_mono_refl|]. split; [intros ? []|]. exists []. intros y. reflexivity.
+    + fold (val_upd s kind v) in E. destruct (notify (val_upd s kind v)) as [[s2 e1] sp] eqn:N.
+      destruct (dispose awaited sp s2) as [s3 e2] eqn:D. inversion E; subst.
+      destruct (notify_place _ _ _ _ N) as (Q & H & M & d1 & P1). destruct (dispose_place _ _ _ _ _ D) as (H2 & d2 & P2).
+      assert (V : chain (val_upd s kind v) = chain s /\ queue (val_upd s kind v) = queue s /\ held (val_upd s kind v) = held s /\ tab (val_upd s kind v) = tab s)
+        by (unfold val_upd; destruct (Nat.eqb kind 2); repeat split).
+      destruct V as (V1 & V2 & V3 & V4).
+      split; [exact (tab_mono_trans _ _ _ (tab_mono_tab _ (val_upd s kind v) V4) (tab_mono_trans _ _ _ M (dispose_mono _ _ _ _ _ D)))|].
+      split; [intros ? []|]. exists (d1 ++ d2). intros y. specialize (P1 y). specialize (P2 y).
+      unfold ids, cq in *. rewrite H2, H, V3, Q, V2 in *. rewrite V1 in P1. rewrite !cnt_app in *. rewrite cnt_nil. lia.
+  - (* copy *) destruct (alive s); inversion E; subst; (split; [apply tab_mono_tab; reflexivity|]); (split; [intros ? []|]); exists []; intros y; reflexivity.
+  - (* drop *) destruct (strong s) as [|[|k]].
+    + inversion E; subst. split; [apply tab_mono_refl|]. split; [intros ? []|]. exists []. intros y. reflexivity.
+    + set (s1 := set_val (set_strong s 0) VNull (owned s) (ext s)) in E. destruct (notify s1) as [[s2 e1] sp] eqn:N.
+      destruct (dispose false sp s2) as [s3 e2] eqn:D. inversion E; subst.
+      destruct (notify_place _ _ _ _ N) as (Q & H & M & d1 & P1). destruct (dispose_place _ _ _ _ _ D) as (H2 & d2 & P2).
+      split; [exact (tab_mono_trans _ _ _ (tab_mono_tab _ s1 eq_refl) (tab_mono_trans _ _ _ M (tab_mono_trans _ _ _ (dispose_mono _ _ _ _ _ D) (tab_mono_tab _ _ eq_refl))))|].
+      split; [intros ? []|]. exists (d1 ++ d2). intros y. specialize (P1 y). specialize (P2 y).
+      unfold ids, cq in *. cbn [chain queue held set_val] in *. rewrite H2, H, Q in *. cbn [chain queue held s1 set_val set_strong] in *.
+      rewrite !cnt_app in *. rewrite cnt_nil. lia.
+    + inversion E; subst. split; [apply tab_mono_tab; reflexivity|]. split; [intros ? []|]. exists []. intros y. reflexivity.
+  - (* pause *) destruct (negb (m_coro s)).
+    + inversion E; subst. split; [apply tab_mono_refl|]. split; [intros ? []|]. exists []. intros y. reflexivity.
+    + destruct (drive false (queue s) (set_queue s [])) as [s1 e] eqn:E1. inversion E; subst.
+      destruct (drive_place _ _ _ _ _ E1) as (H & d & P).
+      split; [exact (tab_mono_trans _ _ _ (tab_mono_tab _ (set_queue s []) eq_refl) (drive_mono _ _ _ _ _ E1))|].
+      split; [intros ? []|]. exists d. intros y. specialize (P y). unfold ids, cq in *. rewrite H. cbn [chain queue held set_queue] in *.
+      change (cids []) with (@nil nat) in P. rewrite !cnt_app in *. rewrite cnt_nil in P. rewrite cnt_nil. lia.
+  - (* hold *)
+    destruct (negb (alive s) || (m_void s && negb (Nat.eqb kind 0)) || Nat.ltb 2 kind).
+    + inversion E; subst. split; [apply tab_mono_refl|]. split; [intros ? []|]. exists []. intros y. reflexivity.
+    + fold (val_upd s kind v) in E. destruct (notify (val_upd s kind v)) as [[s2 e1] sp] eqn:N. inversion E; subst.
+      destruct (notify_place _ _ _ _ N) as (Q & H & M & d1 & P1).
+      assert (V : chain (val_upd s kind v) = chain s /\ queue (val_upd s kind v) = queue s /\ held (val_upd s kind v) = held s /\ tab (val_upd s kind v) = tab s)
+        by (unfold val_upd; destruct (Nat.eqb kind 2); repeat split).
+      destruct V as (V1 & V2 & V3 & V4).
+      split; [exact (tab_mono_trans _ _ _ (tab_mono_tab _ (val_upd s kind v) V4) (tab_mono_trans _ _ _ M (tab_mono_tab _ _ eq_refl)))|].
+      split; [intros ? []|]. exists d1. intros y. specialize (P1 y). rewrite V1 in P1.
+      unfold ids, cq in *. cbn [chain queue held set_held]. rewrite H, V3, Q, V2, concat_app. cbn [concat]. rewrite app_nil_r, !cnt_app, cnt_nil. lia.
+  - (* release *) destruct (held s) as [|sp rest] eqn:HS.
+    + inversion E; subst. split; [apply tab_mono_refl|]. split; [intros ? []|]. exists []. intros y. reflexivity.
+    + destruct (dispose false sp (set_held s rest)) as [s1 e] eqn:D. inversion E; subst.
+      destruct (dispose_place _ _ _ _ _ D) as (H & d & P).
+      split; [exact (tab_mono_trans _ _ _ (tab_mono_tab _ (set_held s rest) eq_refl) (dispose_mono _ _ _ _ _ D))|].
+      split; [intros ? []|]. exists d. intros y. specialize (P y). unfold ids, cq in *. rewrite H, HS. cbn [chain queue held set_held concat] in *.
+      rewrite !cnt_app in *. rewrite cnt_nil. lia.
+  - (* await held *) destruct (negb (m_coro s)).
+    + inversion E; subst. split; [apply tab_mono_refl|]. split; [intros ? []|]. exists []. intros y. reflexivity.
+    + destruct (held s) as [|sp rest] eqn:HS.
+      * inversion E; subst. split; [apply tab_mono_refl|]. split; [intros ? []|]. exists []. intros y. reflexivity.
+      * destruct (dispose true sp (set_held s rest)) as [s1 e] eqn:D. inversion E; subst.
+        destruct (dispose_place _ _ _ _ _ D) as (H & d & P).
+        split; [exact (tab_mono_trans _ _ _ (tab_mono_tab _ (set_held s rest) eq_refl) (dispose_mono _ _ _ _ _ D))|].
+        split; [intros ? []|]. exists d. intros y. specialize (P y). unfold ids, cq in *. rewrite H, HS. cbn [chain queue held set_held concat] in *.
+        rewrite !cnt_app in *. rewrite cnt_nil. lia.
+  - inversion E; subst. split; [apply tab_mono_refl|]. split; [intros ? []|]. exists []. intros y. reflexivity.
+  - inversion E; subst. split; [apply tab_mono_refl|]. split; [intros ? []|]. exists []. intros y. reflexivity.
+Qed.
+
+(* the invariant: no id twice among chain, queue and kept suspend points, and every such id is in the table *)
+Definition uniq (s : st) : Prop := NoDup (ids s) /\ forall i, In i (ids s) -> known s i.
+
+Lemma step0_uniq s x s' o : step0 s x = (s', o) -> uniq s -> uniq s'.
+Proof.
+  intros E (ND & K). destruct (step0_place _ _ _ _ E) as (M & NK & d & P). split.
+  - apply nodup_cnt. intros y. specialize (P y). rewrite nodup_cnt in ND. specialize (ND y).
+    assert (B : (cnt y (new_ids s x) + cnt y (ids s) <= 1)%nat).
+    { destruct x; cbn [new_ids] in *; try (rewrite cnt_nil; lia);
+        (destruct (get (tab s) i) eqn:G; [rewrite cnt_nil; lia|]);
+        (destruct (Nat.eq_dec y i) as [->|NE]; [|rewrite (cnt_other _ _ NE); lia]);
+        (destruct (cnt i (ids s)) eqn:C0; [rewrite cnt_self; lia|]);
+        (exfalso; assert (I : In i (ids s)) by (apply cnt_in; lia); apply (K i I); exact G). }
+    lia.
+  - intros i I. apply cnt_in in I. specialize (P i).
+    assert (H : (0 < cnt i (new_ids s x) + cnt i (ids s))%nat) by lia.
+    destruct (cnt i (ids s)) eqn:C0.
+    + apply NK. apply cnt_in. lia.
+    + apply M, K. apply cnt_in. lia.
+Qed.
+
+Lemma step_uniq s x s' o : step s x = (s', o) -> uniq s -> uniq s'.
+Proof.
+  intros E U. destruct (step_cases _ _ _ _ E) as [(E0 & _)|(i & l & p & r & keep & s1 & o1 & -> & E1 & [(_ & -> & ->)|(_ & _ & s2 & o2 & E2 & -> & ->)])].
+  - exact (step0_uniq _ _ _ _ E0 U).
+  - exact (step0_uniq _ _ _ _ E1 U).
+  - exact (step0_uniq _ _ _ _ E2 (step0_uniq _ _ _ _ E1 U)).
+Qed.
+
+Lemma run_uniq ops : forall s, uniq s -> uniq (snd (run_from s ops)).
+Proof.
+  induction ops as [|x t IH]; intros s U; cbn [run_from]; [exact U|].
+  destruct (step s x) as [s1 o] eqn:E. specialize (IH s1 (step_uniq _ _ _ _ E U)).
+  destruct (run_from s1 t) as [os s2]. exact IH.
+Qed.
+
+Theorem unique_ids : forall coro vd ops,
+  NoDup (ids (snd (run_from (st0 coro vd) ops))).
+Proof.
+  intros coro vd ops. apply (run_uniq ops (st0 coro vd)). split; [constructor|intros i []].
+Qed.
+
+(* ... hence, at every collector call of a run (ordinary code or awaited, nothing pending), each listener waiting in
+   the chain receives exactly that value exactly once, and nobody else receives anything *)
+Lemma nodup_app_l {A} (a b : list A) : NoDup (a ++ b) -> NoDup a.
+Proof. induction a as [|x a IH]; [constructor|]. cbn. intros H. inversion H; subst. constructor; [intros I; apply H2, in_or_app; left; exact I|apply IH; exact H3]. Qed.
+
+Lemma cbs_cos_cnt c x : (cnt x (cbs c) + cnt x (cos c) = cnt x (cids c))%nat.
+Proof.
+  induction c as [|[i b] t IH]; [reflexivity|]. unfold cids in *. cbn [map fst].
+  destruct b; [rewrite cbs_cons_t, cos_cons_t, (cnt_cons x i (cbs t))|rewrite cbs_cons_f, cos_cons_f, (cnt_cons x i (cos t))]; rewrite cnt_cons_map; lia.
+Qed.
+
+Lemma sp_order_cnt b l x : cnt x (sp_order b l) = cnt x l.
+Proof.
+  unfold sp_order. destruct b; [|reflexivity]. destruct l as [|a t]; [reflexivity|].
+  assert (NE : a :: t <> []) by discriminate.
+  change (cnt x (last (a :: t) 0%nat :: removelast (a :: t)) = cnt x (a :: t)).
+  rewrite (cnt_cons x (last (a :: t) 0%nat) (removelast (a :: t))).
+  rewrite (app_removelast_last 0%nat NE) at 3. rewrite cnt_app. lia.
+Qed.
+
+Theorem exactly_once : forall coro vd ops kind awaited v,
+  let s := snd (run_from (st0 coro vd) ops) in
+  let r := step s (OEmit kind awaited v) in
+  o_st (snd r) = 0 -> (m_coro s = false \/ awaited = true) -> not_ready (queue s) ->
+  NoDup (delivs (o_ev (snd r))) /\
+  (forall i w, In (i, w) (delivs (o_ev (snd r))) <-> In i (cids (chain s)) /\ w = emitted s v).
+Proof.
+  intros coro vd ops kind awaited v s r O M N.
+  destruct r as [s' o] eqn:E. cbn [snd] in *.
+  destruct (broadcast _ _ _ _ _ _ E O M N) as (B & _).
+  pose proof (unique_ids coro vd ops) as U. fold s in U. unfold ids, cq in U.
+  apply nodup_app_l, nodup_app_l in U.
+  assert (ND : NoDup (cbs (chain s) ++ sp_order (m_coro s) (cos (chain s)))).
+  { apply nodup_cnt. intros x. rewrite nodup_cnt in U. specialize (U x).
+    rewrite cnt_app, sp_order_cnt. pose proof (cbs_cos_cnt (chain s) x). lia. }
+  rewrite B. split.
+  - apply FinFun.Injective_map_NoDup; [|exact ND]. intros a b H. inversion H. reflexivity.
+  - intros i w. rewrite in_map_iff. split.
+    + intros (j & H & I). inversion H; subst. split; [|reflexivity].
+      apply cnt_in. apply cnt_in in I. rewrite cnt_app, sp_order_cnt in I. pose proof (cbs_cos_cnt (chain s) i). lia.
+    + intros (I & ->). exists i. split; [reflexivity|].
+      apply cnt_in. apply cnt_in in I. rewrite cnt_app, sp_order_cnt. pose proof (cbs_cos_cnt (chain s) i). lia.
+Qed.
+
+(* ================= a kept suspend point ================= *)
+Lemma set_held_id s : set_held s (held s) = s. Proof. destruct s; reflexivity. Qed.
+Lemma set_held_twice s a b : set_held (set_held s a) b = set_held s b. Proof. reflexivity. Qed.
+
+(* keeping the collector's suspend point in a variable and destroying it with nothing in between is the same as
+   discarding it at once: same final state, same events in the same order *)
+Theorem hold_release : forall s kind v s1 o1 s2 o2 s' o,
+  held s = [] ->
+  step s (OEmitHold kind v) = (s1, o1) -> o_st o1 = 0 -> step s1 ORelease = (s2, o2) ->
+  step s (OEmit kind false v) = (s', o) ->
+  s2 = s' /\ o_st o = 0 /\ o_ev o1 ++ o_ev o2 = o_ev o /\ o_ret o1 = o_ret o.
+Proof.
+  intros s kind v s1 o1 s2 o2 s' o HN E1 O1 E2 E. cbn [step step0] in E1, E.
+  destruct (negb (alive s) || (m_void s && negb (Nat.eqb kind 0)) || Nat.ltb 2 kind) eqn:R.
+  - inversion E1; subst. discriminate.
+  - assert (R' : negb (alive s) || (false && negb (m_coro s)) || (m_void s && negb (Nat.eqb kind 0)) || Nat.ltb 2 kind = false).
+    { cbn [andb]. rewrite orb_false_r. exact R. }
+    rewrite R' in E.
+    destruct (notify _) as [[sa ea] sp] eqn:N. destruct (dispose false sp sa) as [sb eb] eqn:D.
+    inversion E1; subst s1 o1. inversion E; subst s' o. clear E1 E.
+    assert (HA : held sa = []).
+    { destruct (notify_place _ _ _ _ N) as (_ & H & _). rewrite H. destruct (Nat.eqb kind 2); exact HN. }
+    cbn [step step0] in E2. rewrite HA in E2. cbn [held set_held app] in E2. rewrite set_held_twice in E2.
+    rewrite <- HA, set_held_id, D in E2. inversion E2; subst. repeat split.
+Qed.
+
 (* ================= the refuted case (finding F-C15) ================= *)
 Lemma discard_overrun_witness :
   let ops := [OSpawn 1 0 false 0; OEmit 0 false 1; OEmit 0 false 2; OEmit 0 true 3; OPause] in
